@@ -1,7 +1,7 @@
 /-!
 # Model of pcore's file-based loading (property C15)  — core Lean only
 
-Mirrors the Go code **as it is now** (HEAD of /repo, after the `fix:` commits 80f753b, 51b01c7, 8bf8d8e):
+Mirrors the Go code **as it is now** (HEAD of /repo, after the `fix:` commits 80f753b, 51b01c7, 8bf8d8e, 9d272bd):
 
 | Go                                                             | Lean                                   |
 |----------------------------------------------------------------|----------------------------------------|
@@ -438,14 +438,18 @@ def resolveTS : Nat → Cfg → Name → List String → Nat → M Unit
       pure ()
     resolveTS n cfg tsName rest (i + 1)
 
-/-- `dependencyLoader.LoadEntry` (after fix 80f753b: the entry `SetEntry` answers is returned) -/
+/-- `dependencyLoader.LoadEntry` (after fix 80f753b: the entry `SetEntry` answers is returned; after fix 9d272bd: a recorded
+    miss is not final).  A cached VALUE is final.  With no own entry, or a nil-valued one (a recorded miss), `find` runs
+    (again); a found value is stored with `SetEntry` over the miss; a miss is recorded only when there was no own entry —
+    otherwise the old nil-valued entry itself is answered (even when the dependency loader's cache gained a value for the
+    name while `find` ran: the next lookup answers that) -/
 def dLoadEntry : Nat → Cfg → Name → M (Option Entry)
   | 0, _, _ => raise .diverges
   | n+1, cfg, name => do
     let st ← getSt
     match st.get .d (keyOf name) with
-    | some e => pure (some e)
-    | none =>
+    | some (some d) => pure (some (some d))
+    | own =>
       let r ← dFind n cfg name
       let st ← getSt
       -- `find` may answer the very entry object the dependency loader holds (`ov == nv` in `SetEntry`): definitions of
@@ -456,9 +460,15 @@ def dLoadEntry : Nat → Cfg → Name → M (Option Entry)
         else
           let e ← setEntry .d (keyOf name) (some d)
           pure (some e)
-      | _, _ =>
-        let e ← setEntry .d (keyOf name) (r.getD none)
+      | some (some d), _ =>
+        let e ← setEntry .d (keyOf name) (some d)
         pure (some e)
+      | _, _ =>
+        match own with
+        | none =>
+          let e ← setEntry .d (keyOf name) none
+          pure (some e)
+        | some o => pure (some o)
 
 /-- `dependencyLoader.find`: a QUALIFIED name goes to the module named by its first segment (`name.IsQualified()` guards
     the routing: an unqualified name is never routed by its first segment), every other name to every member in order -/
@@ -528,6 +538,19 @@ def runLoads (fuel : Nat) (cfg : Cfg) : St → List Name → List Outcome × St
     let (o, s') := loadS fuel cfg s n
     let (os, s'') := runLoads fuel cfg s' ns
     (o :: os, s'')
+
+/-- a definition made BETWEEN lookups through the DefiningLoader of the file loader `l`, without any file:
+    `px.AddTypes(c, px.NewNamedType(name, "Variant[String,Integer]"))` under `c.DoWithLoader(l)` — `SetEntry` of a fresh
+    (unresolved) alias; its resolution only reaches the static loader -/
+def defineIn (l : Lid) (name : Name) : M Unit := do
+  let _ ← setEntry l (keyOf name) (some ⟨.alias, name⟩)
+  pure ()
+
+/-- with the `recover` of the caller -/
+def defineS (s : St) (l : Lid) (name : Name) : Option Err × St :=
+  match defineIn l name s with
+  | .ok _ s' => (none, s')
+  | .fail e s' => (some e, s')
 
 /-- `HasEntry` of the context's loader (the file loaders answer from parent and index only, never from their cache) -/
 def hasEntry (cfg : Cfg) (s : St) : Lid → Key → Bool
